@@ -73,6 +73,12 @@ var tmpCounter int64
 // it the way cog does: codegen.Input.LoadSchemas (which applies
 // allowed_objects when given).
 func loadG(s GSchema, format string, allowed []string) (schemas ast.Schemas, status string) {
+	return loadGAs(s, format, allowed, "p")
+}
+
+// loadGAs loads the rendered document under the given package name (the
+// `package:` option of the input).
+func loadGAs(s GSchema, format string, allowed []string, mainPkg string) (schemas ast.Schemas, status string) {
 	rd, err := s.render(format)
 	if err != nil {
 		if u, ok := err.(unsupported); ok {
@@ -95,9 +101,9 @@ func loadG(s GSchema, format string, allowed []string) (schemas ast.Schemas, sta
 	var inputs []*codegen.Input
 	switch format {
 	case "jsonschema":
-		inputs = append(inputs, &codegen.Input{JSONSchema: &codegen.JSONSchemaInput{InputBase: base, Path: filepath.Join(dir, rd.main), Package: "p"}})
+		inputs = append(inputs, &codegen.Input{JSONSchema: &codegen.JSONSchemaInput{InputBase: base, Path: filepath.Join(dir, rd.main), Package: mainPkg}})
 	case "openapi":
-		inputs = append(inputs, &codegen.Input{OpenAPI: &codegen.OpenAPIInput{InputBase: base, Path: filepath.Join(dir, rd.main), Package: "p"}})
+		inputs = append(inputs, &codegen.Input{OpenAPI: &codegen.OpenAPIInput{InputBase: base, Path: filepath.Join(dir, rd.main), Package: mainPkg}})
 		var pkgs []string
 		for pkg := range rd.extra {
 			pkgs = append(pkgs, pkg)
@@ -107,7 +113,7 @@ func loadG(s GSchema, format string, allowed []string) (schemas ast.Schemas, sta
 			inputs = append(inputs, &codegen.Input{OpenAPI: &codegen.OpenAPIInput{Path: filepath.Join(dir, rd.extra[pkg]), Package: pkg}})
 		}
 	case "cue":
-		inputs = append(inputs, &codegen.Input{Cue: &codegen.CueInput{InputBase: base, Entrypoint: filepath.Join(dir, rd.main), Package: "p"}})
+		inputs = append(inputs, &codegen.Input{Cue: &codegen.CueInput{InputBase: base, Entrypoint: filepath.Join(dir, rd.main), Package: mainPkg}})
 	}
 	status = "ok"
 	if p := vx.Catch(func() {
@@ -442,17 +448,57 @@ type chainCase struct {
 	format string
 	g      GSchema
 	cached ast.Schemas
+	// mirror: the same schema is loaded a second time as package q, so every
+	// name (objects, and whatever the passes derive from field names and
+	// shapes) exists in two packages.
+	mirror bool
 }
 
 func (c chainCase) spec() irgen.SchemaSpec {
+	var s irgen.SchemaSpec
 	switch c.form {
 	case "root":
-		return irgen.WithRoot(c.term)
+		s = irgen.WithRoot(c.term)
 	case "field":
-		return irgen.WithField(c.term, true)
+		s = irgen.WithField(c.term, true)
 	default:
-		return irgen.WithField(c.term, false)
+		s = irgen.WithField(c.term, false)
 	}
+	if c.mirror {
+		return mirrorSpec(s)
+	}
+	return s
+}
+
+func retarget(t irgen.Term, from, to string) irgen.Term {
+	if (t.K == "ref" || t.K == "constref") && strings.HasPrefix(t.A, from+".") {
+		t.A = to + strings.TrimPrefix(t.A, from)
+	}
+	if len(t.Sub) > 0 {
+		sub := make([]irgen.Term, len(t.Sub))
+		for i, s := range t.Sub {
+			sub[i] = retarget(s, from, to)
+		}
+		t.Sub = sub
+	}
+	return t
+}
+
+// mirrorSpec adds, to a single-package spec, a package q holding the same
+// objects (references retargeted to q).
+func mirrorSpec(s irgen.SchemaSpec) irgen.SchemaSpec {
+	if len(s.Pkgs) != 1 {
+		return s
+	}
+	p := s.Pkgs[0]
+	q := p
+	q.Pkg = "q"
+	q.Objects = nil
+	for _, o := range p.Objects {
+		o.T = retarget(o.T, p.Pkg, "q")
+		q.Objects = append(q.Objects, o)
+	}
+	return irgen.SchemaSpec{Name: s.Name + "+mirror(q)", Pkgs: []irgen.PkgSpec{p, q}}
 }
 
 func (c chainCase) ID() string {
@@ -462,11 +508,18 @@ func (c chainCase) ID() string {
 	case "seed":
 		return "chain/seed/" + c.seed.Name
 	default:
+		if c.mirror {
+			return "chain/G/" + c.format + ":" + c.g.String() + "+mirror(q)"
+		}
 		return "chain/G/" + c.format + ":" + c.g.String()
 	}
 }
 
 func (c chainCase) Size() int {
+	if c.mirror {
+		c.mirror = false
+		return c.Size() + 1
+	}
 	switch c.kind {
 	case "I":
 		n := c.term.Size()
@@ -486,20 +539,26 @@ func (c chainCase) Size() int {
 
 func (c chainCase) Parents() []Case {
 	var out []Case
+	if c.mirror && c.kind != "seed" {
+		single := c
+		single.mirror = false
+		single.cached = nil
+		out = append(out, single)
+	}
 	switch c.kind {
 	case "I":
 		if c.form == "optfield" {
-			out = append(out, chainCase{kind: "I", form: "field", term: c.term})
+			out = append(out, chainCase{kind: "I", form: "field", term: c.term, mirror: c.mirror})
 		}
 		if c.form == "field" {
-			out = append(out, chainCase{kind: "I", form: "root", term: c.term})
+			out = append(out, chainCase{kind: "I", form: "root", term: c.term, mirror: c.mirror})
 		}
 		for _, r := range c.term.Reductions() {
-			out = append(out, chainCase{kind: "I", form: c.form, term: r})
+			out = append(out, chainCase{kind: "I", form: c.form, term: r, mirror: c.mirror})
 		}
 	case "G":
 		for _, r := range c.g.Reductions() {
-			out = append(out, chainCase{kind: "G", format: c.format, g: r})
+			out = append(out, chainCase{kind: "G", format: c.format, g: r, mirror: c.mirror})
 		}
 	}
 	return out
@@ -508,11 +567,11 @@ func (c chainCase) Parents() []Case {
 func (c chainCase) detail() replayDetail {
 	switch c.kind {
 	case "I":
-		return detail("chain", map[string]any{"kind": "I", "form": c.form, "term": c.term})
+		return detail("chain", map[string]any{"kind": "I", "form": c.form, "term": c.term, "mirror": c.mirror})
 	case "seed":
 		return detail("chain", map[string]any{"kind": "seed", "seed": c.seed.Name})
 	default:
-		return detail("chain", map[string]any{"kind": "G", "format": c.format, "schema": c.g})
+		return detail("chain", map[string]any{"kind": "G", "format": c.format, "schema": c.g, "mirror": c.mirror})
 	}
 }
 
@@ -526,6 +585,18 @@ func (c chainCase) build() ast.Schemas {
 		s, status := loadG(c.g, c.format, nil)
 		if status != "ok" {
 			return nil
+		}
+		if c.mirror {
+			for _, o := range c.g.Objs {
+				if o.File != "" {
+					return nil // a second document is already a second package
+				}
+			}
+			s2, status := loadGAs(c.g, c.format, nil, "q")
+			if status != "ok" {
+				return nil
+			}
+			s = append(s, s2...)
 		}
 		return s
 	}
@@ -580,6 +651,7 @@ func partChain(d *driver, thorough bool, girs []gIR) int {
 		}
 		for _, form := range []string{"root", "field", "optfield"} {
 			cases = append(cases, chainCase{kind: "I", form: form, term: t})
+			cases = append(cases, chainCase{kind: "I", form: form, term: t, mirror: true})
 		}
 	}
 	for _, s := range append(irgen.SeedSchemas(), c05Seeds()...) {
@@ -587,6 +659,7 @@ func partChain(d *driver, thorough bool, girs []gIR) int {
 	}
 	for _, ir := range girs {
 		cases = append(cases, chainCase{kind: "G", format: ir.format, g: ir.s, cached: ir.schemas})
+		cases = append(cases, chainCase{kind: "G", format: ir.format, g: ir.s, mirror: true})
 	}
 	d.evalAll(cases)
 	return len(cases)
@@ -742,7 +815,16 @@ func applyOp(schemas ast.Schemas, op Op) (out ast.Schemas, outcome string) {
 	return out, "ok"
 }
 
-func allSeeds() []irgen.SchemaSpec { return append(irgen.SeedSchemas(), c05Seeds()...) }
+func allSeeds() []irgen.SchemaSpec {
+	out := append(irgen.SeedSchemas(), c05Seeds()...)
+	// the same names in two packages: every single-package seed once more with a mirror package q
+	for _, s := range append(irgen.SeedSchemas(), c05Seeds()...) {
+		if len(s.Pkgs) == 1 {
+			out = append(out, mirrorSpec(s))
+		}
+	}
+	return out
+}
 
 func seedByName(name string) (irgen.SchemaSpec, bool) {
 	for _, s := range allSeeds() {
@@ -794,11 +876,21 @@ type e1Seed struct {
 
 func e1Seeds() []e1Seed {
 	var out []e1Seed
+	// E1 explores all seeds and the two-package mirrors of a representative
+	// subset (the alphabet grows with the number of objects and packages; the
+	// chains and allowed_objects parts use every mirror)
+	e1Mirrors := map[string]bool{"union+mirror(q)": true, "nested+mirror(q)": true, "enums+mirror(q)": true, "c05-union+mirror(q)": true}
 	for _, s := range allSeeds() {
+		if strings.HasSuffix(s.Name, "+mirror(q)") && !e1Mirrors[s.Name] {
+			continue
+		}
 		out = append(out, e1Seed{spec: s})
 	}
-	for _, name := range []string{"union", "nested"} {
-		s, _ := seedByName(name)
+	for _, name := range []string{"union", "nested", "union+mirror(q)", "nested+mirror(q)"} {
+		s, ok := seedByName(name)
+		if !ok {
+			vx.Fatalf("seed %q missing", name)
+		}
 		out = append(out, e1Seed{spec: s, via: "go"})
 	}
 	return out
@@ -1059,6 +1151,21 @@ func c05Seeds() []irgen.SchemaSpec {
 			{Name: "Extra", T: st("e?", irgen.S("bool"))},
 			{Name: "Deep", T: irgen.Enum("str")},
 			{Name: "metadata", T: st("name", irgen.S("string"))},
+		}}}},
+		// constant references whose target is not a leaf: an alias (chain) of an enum
+		{Name: "c05-constalias", Pkgs: []irgen.PkgSpec{{Pkg: P, Objects: []irgen.ObjSpec{
+			{Name: "Holder", T: st("ce", irgen.ConstRef(P+".Sev"), "other?", irgen.S("string"))},
+			{Name: "Sev", T: irgen.Ref(P + ".E")},
+			{Name: "E", T: irgen.Enum("str")},
+			{Name: "K", T: irgen.Const("str")},
+		}}}},
+		{Name: "c05-constalias2", Pkgs: []irgen.PkgSpec{{Pkg: P, Objects: []irgen.ObjSpec{
+			{Name: "Holder", T: st("ce", irgen.ConstRef(P+".Sev2"), "arr?", irgen.Array(irgen.ConstRef(P+".Wrap")))},
+			{Name: "Sev2", T: irgen.Ref(P + ".Sev")},
+			{Name: "Sev", T: irgen.Ref(P + ".E")},
+			{Name: "E", T: irgen.Enum("str")},
+			{Name: "Wrap", T: st("inner", irgen.Ref(P+".Leaf"))},
+			{Name: "Leaf", T: irgen.S("string")},
 		}}}},
 		{Name: "c05-twopkg", Pkgs: []irgen.PkgSpec{
 			{Pkg: P, EntryPoint: "Root", Objects: []irgen.ObjSpec{
@@ -1385,9 +1492,10 @@ func replay(r *vx.Run) int {
 			Seed   string     `json:"seed"`
 			Format string     `json:"format"`
 			Schema GSchema    `json:"schema"`
+			Mirror bool       `json:"mirror"`
 		}
 		mustUnmarshal(det.Data, &v)
-		cc := chainCase{kind: v.Kind, form: v.Form, term: v.Term, format: v.Format, g: v.Schema}
+		cc := chainCase{kind: v.Kind, form: v.Form, term: v.Term, format: v.Format, g: v.Schema, mirror: v.Mirror}
 		if v.Kind == "seed" {
 			s, ok := seedByName(v.Seed)
 			if !ok {
